@@ -16,7 +16,7 @@ From GV Require Import Base.Outcome Base.AMap Model.GState Model.Creation Model.
      Model.Components Model.Scc Model.Cluster Model.ClusterW Model.Square Model.Partition.
 From GV Require Import Spec.ReachDef Spec.CompSpec Spec.EdgeAdj Spec.History.
 From GV Require Import Proofs.AMapOk Proofs.WFDefs Proofs.HistoryOk Proofs.QueryOk Proofs.DegreeOk Proofs.QueryTotal
-     Proofs.ComponentsOk Proofs.CompWF Proofs.ClusterOk Proofs.ClusterTotalOk Proofs.SquareOk.
+     Proofs.ComponentsOk Proofs.CompWF Proofs.ClusterOk Proofs.ClusterTotalOk Proofs.SquareOk Proofs.MatrixOk.
 Import ListNotations.
 Close Scope Q_scope.
 
@@ -259,6 +259,15 @@ Section Structure.
     destruct (total_clustering_weighted_guards g nn W) as (A1 & A2 & A3).
     destruct (total_average_clustering_weighted_guards g nn cz W) as (B1 & B2 & B3).
     repeat split; auto.
+  Qed.
+  (* ---------------------------------------------------------------- get_sparse_adjacency_matrix (C09) *)
+  Theorem total_sparse_adjacency_matrix (g : gstate) : WF g ->
+    if multi (sp g) then matrix_triplets g = Err WrongMethod
+    else exists tr, matrix_triplets g = Ok tr.
+  Proof.
+    intros W. destruct (multi (sp g)) eqn:Hm.
+    - unfold matrix_triplets. rewrite Hm. reflexivity.
+    - destruct (matrix_spec teqb tltb tltb_asym tltb_total g W Hm) as (tr & H & _). eauto.
   Qed.
 End Structure.
 
